@@ -160,6 +160,11 @@ def check(ctx):
             k = (c['kind'], c['store_best_only'])
             if k not in cfgs or (ctx['tier'] == 'thorough' and C.rng.random() < 0.05):
                 cfgs[k if ctx['tier'] == 'quick' else (k, len(cfgs))] = dict(c, hook='observer', n_iter=max(2, c['n_iter']))
+        # GP histories whose recorded best trees are real trees (several nodes, parent/child cycles), not lone terminals
+        gps = [c for c in cfgs.values() if c['kind'] == 'GP']
+        for j, g in enumerate(gps[:2]):
+            cfgs[('GP-deep', j)] = dict(g, functions=list(runlevel.FUNCSETS[j % 2]), min_depth=2, max_depth=4,
+                                        n_agents=max(g['n_agents'], 10), seed=g['seed'] + 5 + j)
         n_hist = 0
         prev_hist = None
         for k, c in cfgs.items():
@@ -195,11 +200,19 @@ def check(ctx):
                         check_get(C, drv, L, h, key, f"{c['kind']}-after-dump")
             # save / load
             path = os.path.join(scratch, f'h_{n_hist}.pkl')
-            h.save(path)
-            h2 = L['History']()
-            h2.load(path)
-            os.remove(path)
             rp = dict(how='saveload', cfg=c)
+            try:
+                h.save(path)
+                h2 = L['History']()
+                h2.load(path)
+            except Exception as ex:
+                C.issue('save-load-raised', 'oracle', rp, error=type(ex).__name__ + ': ' + str(ex)[:80])
+                C.case(key=('saveload', c['kind'], c['store_best_only']), nontrivial=True, kind='saveload')
+                prev_hist = None
+                continue
+            finally:
+                if os.path.exists(path):
+                    os.remove(path)
             a, b = vars(h), vars(h2)
             if set(a) != set(b):
                 C.issue('attributes-differ-after-load', 'oracle', rp, saved=sorted(a), loaded=sorted(b))
